@@ -33,7 +33,7 @@ func evalPanic(c *Case) Verdict {
 	if idx < 0 {
 		return Verdict{Skip: "no such effect"}
 	}
-	o.PanicAt = j
+	o.PanicAt, o.PanicNil = j, c.PanicNil
 	faulted := Play(c.Sc, Real, o)
 	if faulted.FuelOut {
 		return Verdict{Skip: "fuel"}
@@ -57,7 +57,11 @@ func evalPanic(c *Case) Verdict {
 			}
 		}
 		exp := ProjectHandle(free.Hist[:idx+1], eff.H)
-		exp = append(exp, hist.Event{K: hist.Pan, Th: 0, H: eff.H, Op: openOp, S: vrt.Injected{Eff: j}.String(), OK: -1})
+		val := vrt.Injected{Eff: j}.String()
+		if c.PanicNil {
+			val = fmt.Sprint(nil)
+		}
+		exp = append(exp, hist.Event{K: hist.Pan, Th: 0, H: eff.H, Op: openOp, S: val, OK: -1})
 		if v := diffVerdict("panic-origin", exp, ProjectHandle(faulted.Hist, eff.H)); v.Class != "" {
 			return v
 		}
@@ -87,7 +91,7 @@ func C18(j *core.Job) {
 		perBatch, maxFaults = 250, 400
 	}
 	rep := j.Rep
-	for _, k := range []string{"panics_armed", "panics_fired", "panic_in_cond_or_post_or_thunk", "multi_iterator_runs", "runs_fully_enumerated", "runs_capped"} {
+	for _, k := range []string{"panics_with_nil_value", "panics_armed", "panics_fired", "panic_in_cond_or_post_or_thunk", "multi_iterator_runs", "runs_fully_enumerated", "runs_capped"} {
 		rep.Count(k, 0)
 	}
 	for _, b := range j.Batches {
@@ -118,6 +122,12 @@ func C18(j *core.Job) {
 			for f := 0; f < J; f++ {
 				c := &Case{Property: "C18", Layer: "R", Oracle: "panic", Seed: j.Seed, Batch: b, Index: i*1000 + f, Sc: sc, UseSched: true,
 					Choices: pilot.Choices, PanicAt: f, Fuel: defaultFuel}
+				if f%4 == 3 && nilPanicsObservable {
+					// the panic value is nil (GODEBUG=panicnil=1, the default of main modules
+					// that declare go <= 1.20, as go-co's own go.mod does)
+					c.PanicNil = true
+					rep.Count("panics_with_nil_value", 1)
+				}
 				v := evalPanic(c)
 				rep.Evals++
 				rep.Count("panics_armed", 1)
@@ -139,3 +149,10 @@ func C18(j *core.Job) {
 		}
 	}
 }
+
+// nilPanicsObservable: the process runs with GODEBUG=panicnil=1 (set by the orchestrator for
+// this check), so panic(nil) reaches recover as nil instead of as a *runtime.PanicNilError.
+var nilPanicsObservable = func() (yes bool) {
+	defer func() { yes = recover() == nil }()
+	panic(nil)
+}()
